@@ -1250,8 +1250,8 @@ fn main() {
             let stride: usize = args.get(12).and_then(|s| s.parse().ok()).unwrap_or(2);
             let mut cases: Vec<Case> = if stride == 0 { vec![] } else { gen::zoo_cases(seed, stride) };
             if stride != 0 {
-                // literal family: all literals in the region batches; per site every 2nd (thorough) / 24th (quick) literal
-                cases.extend(gen::lit_cases(seed, if stride == 1 { 2 } else { 24 }));
+                // literal family: all literals in the region batches; per site every 2nd (thorough) / 48th (quick) literal
+                cases.extend(gen::lit_cases(seed, if stride == 1 { 2 } else { 48 }));
             }
             // duplicate-file scenarios: one for every 8 random histories
             cases.extend((0..(ncases + 7) / 8).map(|i| gen::dup_case(seed, i, nsteps / 2)));
@@ -1307,7 +1307,7 @@ fn main() {
                 }
                 println!("-- ieee={ieee} done");
             }
-            let mut case = gen::zoo_case("zoo".into(), 0, false);
+            let mut case = gen::zoo_case("zoo".into(), 0, false, 0);
             case.edits.clear();
             let mut p = make_project(&case, &dir);
             for d in p.analyse() {
